@@ -131,6 +131,11 @@ def run_mutant(box, m, lock, results):
             rec['stage'] = 'suite-kills'
         else:
             rc, diff = sh('git diff', cwd=repo)
+            if not diff.strip():
+                rec['stage'] = 'artifact-empty-diff'  # the mutation was reverted under us: not a result
+                with lock:
+                    print(rec['id'], 'ARTIFACT: empty diff', flush=True)
+                return
             os.makedirs(OUT, exist_ok=True)
             pf = f'{OUT}/{mid}.diff'
             open(pf, 'w').write(diff)
